@@ -243,6 +243,23 @@ def tick_sequences(repo):
 def rule_tick_order(repo):
     r = RuleResult('R-tick-order', "in every tick builder all ff blocks precede the flip, nothing combinational runs between "
                                    "the first ff block and the flip, tracing samples before the flip, a full comb pass follows the flip")
+    # the edge / tick sequences are assembled per (pass application, design): a builder that hands out a list kept on the pass
+    # object gives the second design the first design's ff blocks and flips
+    memo = False
+    for rel, cname in ((PREP, 'PrepareSimPass'), (UNROLL, 'UnrollSimPass')):
+        mm = repo.mod(rel)
+        for fname, fn in mm.methods(cname).items():
+            if fname not in ('collect_ff_funcs', 'create_sim_tick', 'create_sim_reset', 'create_sim_eval_comb'):
+                continue
+            me = fn.args.args[0].arg
+            for n in walk_no_nested(fn):
+                if isinstance(n, ast.Return) and n.value is not None and isinstance(n.value, ast.Attribute) and norm(n.value).startswith(me + '.'):
+                    memo = True
+                    r.bad(mm, f"{cname}.{fname}", f"returns `{norm(n.value)}`", "the schedule is memoised on the pass object and never invalidated: "
+                          "applying the same pass instance to a second design runs the first design's update_ff blocks and flips "
+                          "(the second design's registers never change)", n.lineno)
+    if memo:
+        return r
     seqs = tick_sequences(repo)
     seen = set()
     for (rel, cname), d in seqs.items():
@@ -820,6 +837,7 @@ def _m(name, file, old, new, rule=None, count=1):
 
 
 MUTANTS = [
+    _m('ff-funcs-memoised-on-pass', PREP, "  def collect_ff_funcs( self, top ):\n", "  def collect_ff_funcs( self, top ):\n    if getattr( self, '_ff_funcs', None ) is not None:\n      return self._ff_funcs\n", 'R-tick-order'),
     _m('tick-pre-edge-comb-replaced-by-linetrace', PREP, "      final_schedule.append( top.print_line_trace )\n    final_schedule += self.collect_ff_funcs( top )\n    final_schedule += top._sched.update_schedule\n    final_schedule.append( top._sim.check_top_level_inports )\n    top.sim_tick = SimpleTickPass",
        "      final_schedule = [ top.print_line_trace ]\n    final_schedule += self.collect_ff_funcs( top )\n    final_schedule += top._sched.update_schedule\n    final_schedule.append( top._sim.check_top_level_inports )\n    top.sim_tick = SimpleTickPass", 'R-tick-order'),
     _m('D19-helper-writes-not-marked', L2, "            if blk in m._dsl.update_ff:\n              for x in m._dsl.func_writes[u]:\n                if isinstance( x, Signal ) and x.is_top_level_signal():\n                  x._dsl.needs_double_buffer = True\n", "", 'R-C07-dbuf-set'),
